@@ -353,6 +353,45 @@ func runStateSetters(a *Analyzer, r *Results) {
 		if fn.Name() == "SetHeightAndResetView" && (nv != 1 || nh != 1) {
 			r.Check("S7.shape", props("C13"), "SetHeightAndResetView writes height and view once each, in one critical section", "SetHeightAndResetView", a.P.Pos(fn.Pos()), false, fmtf("view stores=%d height stores=%d", nv, nh), "A")
 		}
+		// S67.atomic: a setter that has written reports success - the callers treat an error as "the state did not move"
+		{
+			after := map[ssa.Instruction]bool{}
+			for _, e := range effs {
+				if e.Kind == "store" && (e.Name == "state.State.view" || e.Name == "state.State.height") && e.Instr.Parent() == fn {
+					blk := e.Instr.Block()
+					past := false
+					for _, in := range blk.Instrs {
+						if in == e.Instr {
+							past = true
+						}
+						if past {
+							after[in] = true
+						}
+					}
+					for b := range reachableFrom(blk) {
+						if b == blk {
+							continue
+						}
+						for _, in := range b.Instrs {
+							after[in] = true
+						}
+					}
+				}
+			}
+			nRet := 0
+			for _, e := range effs {
+				if e.Kind != "return" || len(e.Args) != 2 || e.Instr.Parent() != fn || !after[e.Instr] {
+					continue
+				}
+				nRet++
+				ev := a.NewEval(e, r)
+				ok := e.Args[1].Key() == tNil.Key() || ev.Same(e.Args[1], tNil)
+				ev.Verdict("S67.atomic", props("C13", "C17", "C10", "C05"), "a state setter is all-or-nothing: once it has written the height or the view it returns success - its callers take an error to mean that the node's position did not change", "", ok, "after writing, "+shortName(fn)+" can return the error "+PP(e.Args[1]))
+			}
+			if nRet == 0 {
+				r.Undecided = append(r.Undecided, id+": no return after the write found (S67.atomic)")
+			}
+		}
 		// successful return carries the new position
 		for _, e := range effs {
 			if e.Kind == "return" && len(e.Args) == 2 && e.Args[1].Key() == tNil.Key() {
@@ -1552,6 +1591,20 @@ func (ig *ingest) hasBlockAndFlagParams(e *Effect) bool {
 	if sc == nil {
 		return false
 	}
+	if !blockAndFlagParams(sc) {
+		return false
+	}
+	// the outermost such call only: a round starter split in two passes block and flag on to its second half, where the
+	// state has already moved
+	for _, fr := range e.Path[1:] {
+		if g := ig.a.P.FuncByID[fr.Fn]; g != nil && blockAndFlagParams(g) {
+			return false
+		}
+	}
+	return true
+}
+
+func blockAndFlagParams(sc *ssa.Function) bool {
 	hasBlk, hasFlag := false, false
 	for _, p := range sc.Params {
 		switch ts := typeShort(p.Type()); {
